@@ -22,11 +22,11 @@ ARENAS = [
 ]
 
 
-def write_cfg(sd, name, nmsgs, maxops, maxobjs, sizes, shapes, complens, ops):
+def write_cfg(sd, name, nmsgs, maxops, maxobjs, sizes, shapes, complens, ops, plan="NoPlan"):
     with open(os.path.join(sd, name), "w") as f:
         f.write("SPECIFICATION Spec\nCONSTANTS\n  NMsgs = %d\n  MaxOps = %d\n  MaxObjs = %d\n  D = 6\n"
-                "  Sizes <- %s\n  ListShapes <- %s\n  CompLens = %s\n  Ops <- %s\n"
-                "INVARIANTS Acyclic EmitBeh\nCHECK_DEADLOCK FALSE\n" % (nmsgs, maxops, maxobjs, sizes, shapes, complens, ops))
+                "  Sizes <- %s\n  ListShapes <- %s\n  CompLens = %s\n  Ops <- %s\n  Plan <- %s\n"
+                "INVARIANTS Acyclic EmitBeh\nCHECK_DEADLOCK FALSE\n" % (nmsgs, maxops, maxobjs, sizes, shapes, complens, ops, plan))
 
 
 def behaviours(ctx, sd, plan):
@@ -37,7 +37,7 @@ def behaviours(ctx, sd, plan):
     rng = random.Random(ctx.seed)
     for i, p in enumerate(plan):
         cfg = "Builder_gen%d.cfg" % i
-        write_cfg(sd, cfg, p.get("nmsgs", 1), p["maxops"], p["maxobjs"], p["sizes"], p["shapes"], p["complens"], p["ops"])
+        write_cfg(sd, cfg, p.get("nmsgs", 1), p["maxops"], p["maxobjs"], p["sizes"], p["shapes"], p["complens"], p["ops"], p.get("plan", "NoPlan"))
         if p["mode"] == "ex":
             r = tlc.run(ctx, sd, "MCBuilder", cfg=cfg, workers=12, timeout=3000, heap="12g")
             bs = r.tagged("BEH")
@@ -70,7 +70,7 @@ def behaviours(ctx, sd, plan):
     return out, states, trans
 
 
-def run(ctx, plan, arenas=None):
+def run(ctx, plan, arenas=None, dump_every=1):
     """Returns dict with go mismatches, tlc bad lines, counts."""
     sd = tlc.stage(ctx, "enc")
     arenas = arenas or ARENAS
@@ -84,7 +84,7 @@ def run(ctx, plan, arenas=None):
         json.dump(arenas, f)
     drv = gobuild.build(ctx, "encbuild", also=["vwalk"])
     df = os.path.join(sd, "dumps.ndjson")
-    rc, out, err = gobuild.run_driver(ctx, drv, ["run", bf, af, df], timeout=3400)
+    rc, out, err = gobuild.run_driver(ctx, drv, ["run", bf, af, df], timeout=3400, env={"VERIF_DUMP_EVERY": str(dump_every)})
     if rc != 0:
         raise Inconclusive("encbuild died rc=%d: %s" % (rc, err[-3000:]))
     go_mis, summ = [], None
